@@ -142,6 +142,45 @@ fn shift_space() -> Space {
 	Space { name: "constant-pool-shift", cases }
 }
 
+/// deterministic incompressible bytes (xorshift64*): content for large jar entries, not a source of cases
+fn noise(n: usize, seed: u64) -> Vec<u8> {
+	let mut x = 0x9e37_79b9_7f4a_7c15u64 ^ seed.wrapping_mul(0xbf58_476d_1ce4_e5b9);
+	(0..n).map(|_| {
+		x ^= x >> 12;
+		x ^= x << 25;
+		x ^= x >> 27;
+		(x.wrapping_mul(0x2545_f491_4f6c_dd1d) >> 56) as u8
+	}).collect()
+}
+
+/// a method whose jumps do not fit 16 bits: a forward `goto_w` over more than 32767 bytes, short forward jumps behind
+/// it, a far backward `goto_w`, with references to renamed classes on both sides of the long stretch
+fn far_jump_class() -> SClass {
+	let mut c = skeleton("p/Far");
+	let pad = 33_000usize;
+	// 0: goto_w far(end-2) ; 1: getstatic ; 2..: nops ; then: getstatic, ifeq +1, goto (short forward), return ; goto_w back to 1
+	let mut insns = vec![SInsn::Branch(op::GOTO, (pad + 3) as Idx), SInsn::Field(op::GETSTATIC, cfmodel::gen::mref(matrix::M, "f", "I")), SInsn::Simple(0x57)];
+	insns.extend((0..pad).map(|_| SInsn::Simple(op::NOP)));
+	let base = insns.len() as Idx;
+	insns.extend([
+		SInsn::Field(op::GETSTATIC, cfmodel::gen::mref(matrix::M, "f", "I")),
+		SInsn::Branch(op::IFEQ, base + 3),
+		SInsn::Branch(op::GOTO, base + 4),
+		SInsn::Branch(op::GOTO, 1),
+		RETURN,
+	]);
+	c.methods.push(method_with("far", "()V", insns));
+	c
+}
+
+/// a class whose file is large and incompressible: an unknown attribute of 100 000 noise bytes
+fn bulky_class() -> SClass {
+	let mut c = skeleton("p/Bulky");
+	c.super_class = Some(js(matrix::M));
+	c.unknown.push(SUnknown { name: js("Noise"), bytes: noise(100_000, 7) });
+	c
+}
+
 /// jars mixing classes, resources and directories
 fn mix_space() -> Space {
 	let specs = matrix::specs();
@@ -151,6 +190,8 @@ fn mix_space() -> Space {
 	host.super_class = Some(js(matrix::SUB));
 	host.methods.push(method_with("run", "()V", vec![SInsn::Invoke(op::INVOKEVIRTUAL, cfmodel::gen::mref(matrix::SUB, "m", "()V"), false), SInsn::Field(op::GETSTATIC, cfmodel::gen::mref(matrix::E, "K", "Lp/E;")), RETURN]));
 	classes.push(host);
+	classes.push(far_jump_class());
+	classes.push(bulky_class());
 	let class_entries: Vec<Entry> = classes.iter().map(|c| Entry::Class(bytes_of("mix", c, &enc))).collect();
 	let a_class = bytes_of("mix", &classes[0], &enc);
 	let res = |name: &str, bytes: &[u8], deflate: bool| Entry::Other { name: name.to_owned(), bytes: bytes.to_vec(), deflate };
@@ -164,6 +205,12 @@ fn mix_space() -> Space {
 		res("p/M$In.properties", b"key=value\n", false),
 		res("classy", b"not a class", false),
 		res("README.class.md", b"# readme", true),
+		// entries larger than any buffer a reader might fill in one go (64 KiB deflate window, 32 KiB chunks), incompressible
+		// so that the compressed size is large too; and a large compressible one
+		res("assets/noise-deflated.bin", &noise(200_000, 1), true),
+		res("assets/noise-stored.bin", &noise(70_000, 2), false),
+		res("assets/zeros-deflated.bin", &vec![0u8; 300_000], true),
+		res("assets/noise-33k.bin", &noise(33_000, 3), true),
 	];
 	let dirs = vec![Entry::Dir("META-INF/".into()), Entry::Dir("p/".into()), Entry::Dir("p/sub/".into()), Entry::Dir("data/".into()), Entry::Dir("empty-dir/".into())];
 	let mut layouts: Vec<(&str, Vec<Entry>)> = Vec::new();
